@@ -7,7 +7,7 @@
 (***************************************************************************)
 EXTENDS Codec, Universe, Json, IOUtils
 
-CONSTANTS ModIdx, PlanSet, Depth
+CONSTANTS ModIdx, PlanSet, Depth, MaxCompose
 TheMod == Modules[ModIdx]
 
 TypeNames == {TheMod.defs[i].n : i \in DOMAIN TheMod.defs}
@@ -17,11 +17,26 @@ PlansRT == {<<OpBuild(1), OpEncode(1, "DER"), OpEncode(1, s), OpDecode(2, s), Op
 \* transcoding chains: every ordered pair of syntaxes
 PlansChain == {<<OpBuild(1), OpEncode(1, "DER"), OpEncode(1, s1), OpDecode(2, s1), OpEncode(2, s2), OpDecode(3, s2),
                  OpCompare(1, 3), OpEncode(3, "DER")>> : s1 \in Syntaxes, s2 \in Syntaxes}
-Plans == CASE PlanSet = "enc" -> PlansEnc [] PlanSet = "rt" -> PlansRT [] PlanSet = "chain" -> PlansChain
+Plans == CASE PlanSet = "enc" -> PlansEnc [] PlanSet = "rt" -> PlansRT [] PlanSet = "chain" -> PlansChain [] OTHER -> {}
+\* C05: every 2-chunk split of the reference encoding, for the restartable binary decoders
+Splits(syn, b) == {<<OpStartDecode(1, syn, b), OpDecodeCall(c), OpDecodeCall(Len(b))>> : c \in 0..(Len(b) - 1)}
+\* every composition (all chunkings) of a short encoding, and 1-octet feeding of any
+RECURSIVE Compositions(_, _)
+Compositions(from, n) == IF from = n THEN {<<>>}
+                         ELSE UNION {{<<c>> \o rest : rest \in Compositions(c, n)} : c \in (from + 1)..n}
+Chunked(syn, b, cuts) == <<OpStartDecode(1, syn, b)>> \o [i \in DOMAIN cuts |-> OpDecodeCall(cuts[i])]
+AllChunkings(syn, b) == IF Len(b) = 0 THEN {} ELSE {Chunked(syn, b, cs) : cs \in Compositions(0, Len(b))}
+ByteWise(syn, b) == IF Len(b) = 0 THEN {} ELSE {Chunked(syn, b, [i \in 1..Len(b) |-> i])}
+RestartableBin == {"DER", "OER"}
+PlansFor(n, v) ==
+  CASE PlanSet = "split" -> UNION {Splits(s, Enc(s, TRef(n), v)) : s \in RestartableBin}
+    [] PlanSet = "chunks" -> UNION {(IF Len(Enc(s, TRef(n), v)) <= MaxCompose THEN AllChunkings(s, Enc(s, TRef(n), v)) ELSE {})
+                                    \cup ByteWise(s, Enc(s, TRef(n), v)) : s \in RestartableBin}
+    [] OTHER -> Plans
 
-Init == \E n \in TypeNames : \E v \in Values(RawEnv, TRef(n), Depth) : \E p \in Plans :
+Init == \E n \in TypeNames : \E v \in Values(RawEnv, TRef(n), Depth) : \E p \in PlansFor(n, v) :
           InitSession([ty |-> n, val |-> v, plan |-> p])
-Next == Step(OpaqueWire)
+Next == Step(GenObs)
 Spec == Init /\ [][Next]_vars
 
 Done == pc = Len(sc.plan) + 1
